@@ -98,7 +98,7 @@ Definition casef := ((float * float * bool) * list pt2)%type.
 Definition bad_f (exact : bool) (c : casef) : list N :=
   let '((r, p, ext), pts) := c in
   let vs := @iso_thread FOps r p ext in
-  let ls := polygon_lines c_tolerance vs in
+  let ls := polygon_lines vs in
   map (fun q : pt2 => let '(id, _, _) := q in id)
       (filter (fun q : pt2 => let '(id, (x, y), g) := q in
                  let m := mesh_eval ls (fv2 x y) in
@@ -111,7 +111,7 @@ Definition caseg := ((float * float * bool) * (float * float * Z) * list pt3)%ty
 Definition bad_g (exact : bool) (c : caseg) : list N :=
   let '((r, p, ext), (len, tap, st), pts) := c in
   let vs := @iso_thread FOps r p ext in
-  let ls := polygon_lines c_tolerance vs in
+  let ls := polygon_lines vs in
   match @screw3d FOps len tap p st with
   | None => map (fun q : pt3 => let '(id, _, _) := q in id) pts
   | Some s =>
